@@ -150,7 +150,7 @@ def catalogue(base: str, fmt: int) -> list[list]:
             faults.append(["md_prop_set", which, nm, "identifier", ""])
             faults.append(["md_prop_set", which, nm, "unit", "furlong"])
             faults.append(["md_prop_set", which, nm, "dtype", ""])
-            faults.append(["md_prop_set", which, nm, "dtype", pm["dtype"] if pm["dtype"] in ("str", "bool", "bytes") else "<" + {"int8": "i1", "int16": "i2", "int32": "i4", "int64": "i8", "uint8": "u1", "uint16": "u2", "uint32": "u4", "uint64": "u8", "float32": "f4", "float64": "f8"}[pm["dtype"]]])
+            faults.append(["md_prop_set", which, nm, "dtype", {"int8": "i1", "int16": "<i2", "int32": "<i4", "int64": "<i8", "uint8": "u1", "uint16": "u2", "uint32": "u4", "uint64": ">u8", "float32": "<f4", "float64": "f8"}.get(pm["dtype"], pm["dtype"])])
             others = [o for o in (md.get(which) or {}) if o != nm]
             if others:
                 faults.append(["md_prop_swap_ids", which, nm, others[0]])
@@ -291,7 +291,54 @@ def run_impl(c):
     obs["tree"] = tree
     if tree_printable(tree):
         obs["coq"] = f"(IValidate KObj {c_otree(tree)}, OVal {cres(obs['v'])})"
+        doc = doc_term(st)
+        if doc is not None:
+            obs["coq"] = f"(IValidateJ KObj {c_otree(tree)} {doc[0]} {doc[1]}, OVal {cres(obs['v'])})"
+            obs["doc_tied"] = True
     return obs
+
+
+_KNOWN_DTYPE_SPELLINGS = None
+
+
+def known_dtype_spellings():
+    """the dtype spellings the Coq metadata model knows (the finite np.dtype(...).name table of Meta.v)"""
+    global _KNOWN_DTYPE_SPELLINGS
+    if _KNOWN_DTYPE_SPELLINGS is None:
+        import re
+
+        from harness.common import COQ
+
+        txt = (COQ / "theories" / "Meta.v").read_text()
+        body = txt[txt.index("Definition np_names"):txt.index("Fixpoint assoc")]
+        _KNOWN_DTYPE_SPELLINGS = set(re.findall(r'\("([^"]*)","[^"]*"\)', body))
+    return _KNOWN_DTYPE_SPELLINGS
+
+
+def doc_term(st):
+    """(Coq string GEFF_VERSION, Coq jv term of the raw attrs['geff']) or None when the document is outside the metadata model's encoding
+    (floats that are not multiples of 2^-10, dtype spellings outside the model's table, no geff attribute, root not a group)"""
+    import zarr
+
+    from geff_spec._schema import GEFF_VERSION
+    from harness import c07
+    from harness.common import cstr
+
+    try:
+        root = zarr.open_group(st, mode="r")
+        if "geff" not in root.attrs:
+            return None
+        raw = json.loads(json.dumps(root.attrs["geff"]))
+        if isinstance(raw, dict):
+            for key in ("node_props_metadata", "edge_props_metadata"):
+                pm = raw.get(key)
+                if isinstance(pm, dict):
+                    for e in pm.values():
+                        if isinstance(e, dict) and isinstance(e.get("dtype"), str) and e["dtype"] not in known_dtype_spellings():
+                            return None
+        return cstr(GEFF_VERSION), c07.to_jv(c07.enc(raw))
+    except Exception:
+        return None
 
 
 def cli_exit(st) -> int:
